@@ -899,5 +899,9 @@ V('C19', 'optconf-partition', 'silent', '', '--optconf split with str.partition'
   ('src/pyhf/utils.py', '        f"{opt.split(\'=\', 1)[0]}: {opt.split(\'=\', 1)[1]}" for opt in opts\n', '        f"{opt.partition(\'=\')[0]}: {opt.split(\'=\', 1)[1]}" for opt in opts\n'))
 V('C02', 'expected-data-without-aux-takes-constraint', 'fire', 'C02.R4', 'expected_data(include_auxdata=False) returns the constraint part',
   ('src/pyhf/pdf.py', '            return self.make_pdf(pars)[0].expected_data()\n', '            return self.make_pdf(pars)[1].expected_data()\n'))
+V('C20', 'set-poi-accepts-two-components', 'fire', 'C20.R6', 'a two-component parameter is accepted as POI',
+  ('src/pyhf/pdf.py', '        if self.param_set(name).n_parameters > 1:', '        if self.param_set(name).n_parameters > 2:'))
+V('C20', 'set-poi-index-from-stop', 'silent', '', "POI index computed from the slice's end (one component)",
+  ('src/pyhf/pdf.py', '        self._poi_index = self.par_slice(name).start', '        self._poi_index = self.par_slice(name).stop - 1'))
 V("C13", "code4-exponent-mask-strict", "fire", "C13.R3", "code 4 takes exponent 1 (a constant) exactly at |alpha| = alpha0",
   ("src/pyhf/interpolators/code4.py", "            exponents >= self.__alpha0, exponents, self.ones", "            exponents > self.__alpha0, exponents, self.ones"))
